@@ -483,6 +483,32 @@ def cmpV (c : Ctx) (flat : Bool) (e : VExp) (tok : String) (rv : List Rat) : Ver
       | none => .exempt
     else if guards.any (fun g => ratAbs g ≤ aD) then .exempt
     else cmpOut c (.quot num aN den aD false) tok
+  | .cquot num den κn κd sc guards alt clo chi =>
+    let aN := c.allow (κn * scaleOf c sc)
+    let aD := c.allow (κd * scaleOf c sc)
+    let zeroGuard := den == 0 || guards.any (· == 0)
+    match parseRat tok with
+    | none => .bad s!"non-finite value {tok} of a quotient the code clamps to [{ratStr clo}, {ratStr chi}]"
+    | some y =>
+      -- the clamp holds whatever the operands are (rounding residue included)
+      if y < clo || chi < y then .bad s!"value {ratStr y} outside the clamp [{ratStr clo}, {ratStr chi}]"
+      else if flat && zeroGuard then
+        match alt with
+        | some a => if y == a then .ok else .bad s!"guard: expected {ratStr a} got {ratStr y}"
+        | none => .exempt
+      else if guards.any (fun g => ratAbs g ≤ aD) then .exempt
+      else
+        let nl := num - aN; let nh := num + aN
+        let dl := den - aD; let dh := den + aD
+        -- denominator zero up to the allowance: a quotient of rounding residue, anything inside the clamp
+        if dl ≤ 0 ∧ 0 ≤ dh then .exempt
+        else
+          let c1 := nl / dl; let c2 := nl / dh; let c3 := nh / dl; let c4 := nh / dh
+          let lo := Yata.Ind.qclamp (ratMin (ratMin c1 c2) (ratMin c3 c4)) clo chi
+          let hi := Yata.Ind.qclamp (ratMax (ratMax c1 c2) (ratMax c3 c4)) clo chi
+          let w := 16 * c.eps * ratMax (ratAbs lo) (ratAbs hi)
+          if lo - w ≤ y ∧ y ≤ hi + w then .ok
+          else .bad s!"value {ratStr y} outside [{ratStr (lo - w)}, {ratStr (hi + w)}] = clamped enclosure of {ratStr num}/{ratStr den}"
   | .sqrtQuot num den κn κd =>
     match parseRat tok with
     | none => .bad s!"non-finite value {tok} (radicand {ratStr den})"
@@ -565,7 +591,7 @@ def rangeSpec (name : String) (kinds : List String) : RangeSpec :=
   let smooth := nonOvershoot kinds
   match name with
   | "Aroon" => { intervals := [(0, 0, 1), (1, 0, 1)] }
-  | "RelativeStrengthIndex" => if smooth then { intervals := [(0, 0, 1)] } else {}
+  | "RelativeStrengthIndex" => { intervals := [(0, 0, 1)] }  -- every kind: the code clamps the quotient (C12_rsi_run_every_kind)
   | "MoneyFlowIndex" => { intervals := [(0, 0, 1), (1, 0, 1), (2, 0, 1)], orders := [(0, 2)] }
   | "StochasticOscillator" => if smooth then { intervals := [(0, 0, 1), (1, 0, 1)] } else {}
   | "ChandeMomentumOscillator" => { intervals := [(0, -1, 1)] }
